@@ -369,3 +369,61 @@ func VerifC07Value() {
 	}
 	vReach("end")
 }
+
+
+// VerifC07MapNested: a map holding nested containers (Slice, Map, Bytes) copied into destinations of
+// every size class (empty, shorter, same, longer / pre-sized): the copy is equal and fully
+// independent — mutating a nested container on either side never shows on the other.
+func VerifC07MapNested() {
+	src := NewMap()
+	a, b := vNondetInt64("a"), vNondetInt64("b")
+	src.PutEmptySlice("list").AppendEmpty().SetInt(a)
+	src.PutEmptyMap("obj").PutInt("inner", b)
+	src.PutEmptyBytes("raw").FromRaw([]byte{1, 2, 3})
+	dst := NewMap()
+	switch vChoice("dest", 4) {
+	case 1: // shorter
+		dst.PutInt("x", 1)
+	case 2: // same length, other kinds
+		dst.PutInt("x", 1)
+		dst.PutStr("y", "s")
+		dst.PutBool("z", true)
+	case 3: // longer and pre-sized
+		dst.EnsureCapacity(8)
+		for _, k := range []string{"p", "q", "r", "s", "t"} {
+			dst.PutEmptySlice(k).AppendEmpty().SetInt(0)
+		}
+	}
+	src.CopyTo(dst)
+	check := func(m Map, wa, wb int64, raw0 byte, lbl string) {
+		vAssert(m.Len() == 3, lbl+"/len")
+		l, ok := m.Get("list")
+		vAssert(ok && l.Type() == ValueTypeSlice && l.Slice().Len() == 1 && l.Slice().At(0).Int() == wa, lbl+"/nested-slice")
+		o, ok := m.Get("obj")
+		vAssert(ok && o.Type() == ValueTypeMap, lbl+"/nested-map-kind")
+		if ok && o.Type() == ValueTypeMap {
+			iv, ok2 := o.Map().Get("inner")
+			vAssert(ok2 && iv.Int() == wb, lbl+"/nested-map")
+		}
+		r, ok := m.Get("raw")
+		vAssert(ok && r.Type() == ValueTypeBytes && r.Bytes().Len() == 3 && r.Bytes().At(0) == raw0, lbl+"/nested-bytes")
+	}
+	check(dst, a, b, 1, "map-nested/copy-equals-source")
+	check(src, a, b, 1, "map-nested/source-unchanged-by-the-copy")
+	// mutate the nested containers of the copy
+	na, nb := vNondetInt64("na"), vNondetInt64("nb")
+	dl, _ := dst.Get("list")
+	dl.Slice().At(0).SetInt(na)
+	do, _ := dst.Get("obj")
+	do.Map().PutInt("inner", nb)
+	dr, _ := dst.Get("raw")
+	dr.Bytes().SetAt(0, 9)
+	check(src, a, b, 1, "map-nested/source-independent-of-copy-mutation")
+	check(dst, na, nb, 9, "map-nested/copy-holds-its-own-mutation")
+	// and the other way round
+	sl, _ := src.Get("list")
+	sl.Slice().AppendEmpty().SetInt(5)
+	dl2, _ := dst.Get("list")
+	vAssert(dl2.Slice().Len() == 1, "map-nested/copy-independent-of-source-mutation")
+	vReach("end")
+}
